@@ -2234,6 +2234,10 @@ func (s *swamp) SaveFunction(t treasure.Treasure, guardID guard.ID) treasure.Tre
 				s.addToCreationTimeBeacon(t)
 			}
 		}
+		if !t.IsContentTypeChanged() && t.IsContentChanged() {
+			// the value moved: the built value index is stale too
+			s.addToValueBeacon(t)
+		}
 
 		// the treasure is modified, we need to add it to the swamp and write it to the chroniclerInterface
 		s.treasuresWaitingForWriter.Add(t)
